@@ -336,7 +336,61 @@ theorem finalize_once_even_if_raises (d : Nat) (w : World) (hw : (w.objs d).fina
   rw [h1 cs _ hfin]
   refine ⟨by simp [finalizeW, hw, apply], hfin, hfin⟩
 
+/-! ## data and iterator collected together -/
+
+/-- `drop_both_once`: the caller drops data `d` and the iterator `i` at once and the collector runs the
+    two `__del__`s in either order. If the finalizer of `d` has run as often as its flag says (which
+    `finalize_at_most_once` gives after every history), then afterwards
+    * data first (`RenderData.__del__`, then `RenderIterator.__del__` → `close()` → `finalize()`): the
+      finalizer has run exactly once and the flag is set — whether or not `i` was to finalize `d`;
+    * iterator first: still as often as the flag says (at most once); the GC step `dropRefs` then runs it
+      iff the flag is not set (`inv_history`). -/
+theorem drop_both_once (d i : Nat) (w : World) (hw : (w.objs d).finCalls = (w.objs d).finalized.toNat) :
+    let wd := apply (.markDropped i) (closeW i (finalizeW d .del (apply (.callerDrop d) w)))
+    let wi := apply (.callerDrop d) (apply (.markDropped i) (closeW i w))
+    ((wd.objs d).finCalls = 1 ∧ (wd.objs d).finalized = true) ∧
+    (wi.objs d).finCalls = (wi.objs d).finalized.toNat := by
+  have key : ∀ v : World, (v.objs d).finCalls = (v.objs d).finalized.toNat →
+      ((closeW i v).objs d).finCalls = ((closeW i v).objs d).finalized.toNat ∧
+      ((v.objs d).finalized = true → ((closeW i v).objs d).finalized = true) := by
+    intro v hv
+    by_cases hc : (v.iters i).closed = true
+    · have : closeW i v = v := by simp [closeW, hc]
+      rw [this]; exact ⟨hv, id⟩
+    · have hc' : (v.iters i).closed = false := by simpa using hc
+      obtain ⟨-, -, -, -, -, -, p1, p2, p3, -⟩ := closeW_spec i hc'
+      by_cases hd : d = (v.iters i).data
+      · subst hd
+        rw [p2, p3, hv]
+        cases hf : (v.objs (v.iters i).data).finalized <;> cases hfd : (v.iters i).finalizeData <;> simp
+      · rw [p1 d hd]; exact ⟨hv, id⟩
+  intro wd wi
+  refine ⟨?_, ?_⟩
+  · have hfin : ((finalizeW d .del (apply (.callerDrop d) w)).objs d).finalized = true ∧
+        ((finalizeW d .del (apply (.callerDrop d) w)).objs d).finCalls = 1 := by
+      by_cases hf : (w.objs d).finalized = true
+      · simp [finalizeW, apply, hf, hw]
+      · simp [finalizeW, apply, hf] ; simp [hw, hf]
+    have := key _ (by rw [hfin.1, hfin.2]; rfl)
+    have h2 := this.2 hfin.1
+    have h1 := this.1
+    rw [h2] at h1
+    have hm : ∀ v : World, (apply (.markDropped i) v).objs = v.objs := fun _ => rfl
+    simp only [wd, hm]
+    exact ⟨by simpa using h1, h2⟩
+  · have := (key w hw).1
+    have hm : ∀ v : World, (apply (.markDropped i) v).objs = v.objs := fun _ => rfl
+    have hcd : ∀ v : World, ((apply (.callerDrop d) v).objs d).finCalls = (v.objs d).finCalls ∧
+        ((apply (.callerDrop d) v).objs d).finalized = (v.objs d).finalized := fun _ => by simp [apply]
+    simp only [wi, (hcd _).1, (hcd _).2, hm]
+    exact this
+
 /-! ## the translator's constants are the ones the model was written for -/
+
+/-- read off the source of `RenderData.__del__`: the GC fallback is `self.finalize()` — it goes through
+    the once-flag (the model's `dropRefs` and `dataDelP` are written with it) -/
+theorem generated_del_is_finalize : Generated.dataDelCallsFinalize = true := by decide
+
 
 theorem generated_defaults :
     Generated.initRenderFinalizeDefault = true ∧ Generated.initRenderIterationDefault = false ∧
@@ -361,12 +415,14 @@ def sampleHist : List (Op × Flt) :=
   [(.draw true false 2 .on 0, some (.render, 1, .boom)),
    (.draw false true 1 .off 0, some (.validate, 0, .sizeError)),
    (.iterNew 2 .off, none), (.next 0, some (.render, 0, .keyboardInterrupt)), (.dropIter 0, none),
-   (.mkData true, none), (.fromData 3 false 1 .off .none, none), (.next 1, none), (.close 1, none)]
+   (.mkData true, none), (.fromData 3 false 1 .off .none, none), (.next 1, none), (.close 1, none),
+   (.iterNew 1 .on, none), (.next 2, some (.render, 0, .valueError)), (.next 2, some (.render, 0, .unicodeError)),
+   (.draw true true 1 .off 0, some (.render, 2, .generatorExit)), (.str, some (.render, 0, .osError))]
 
 example : Adm false sampleHist := by
   intro x hx
   simp only [sampleHist, List.mem_cons, List.not_mem_nil, or_false] at hx
-  rcases hx with h | h | h | h | h | h | h | h | h <;> subst h <;> simp [Admissible, injOp, isDirect, injS, inj]
+  rcases hx with h | h | h | h | h | h | h | h | h | h | h | h | h | h <;> subst h <;> simp [Admissible, injOp, isDirect, injS, inj, Exc.generic]
 
 /-- strict histories may fail anything inside a subclass operation on `_init_render_` -/
 example : Adm true [(Op.initRender false true true false true, some (Target.validate, 1, Exc.sizeError)),
@@ -374,11 +430,11 @@ example : Adm true [(Op.initRender false true true false true, some (Target.vali
     (Op.initRender false false true false false, some (Target.render, 0, Exc.keyboardInterrupt))] := by
   intro x hx
   simp only [List.mem_cons, List.not_mem_nil, or_false] at hx
-  rcases hx with h | h | h <;> subst h <;> simp [Admissible, injOp, isDirect, injS, inj]
+  rcases hx with h | h | h <;> subst h <;> simp [Admissible, injOp, isDirect, injS, inj, Exc.generic]
 
 example : Adm true [(Op.draw true false 2 .on 0, some (Target.render, 1, Exc.boom)), (Op.render, none)] := by
   intro x hx
   simp only [List.mem_cons, List.not_mem_nil, or_false] at hx
-  rcases hx with h | h <;> subst h <;> simp [Admissible, injOp, isDirect, injS, inj]
+  rcases hx with h | h <;> subst h <;> simp [Admissible, injOp, isDirect, injS, inj, Exc.generic]
 
 end TIV.C10
